@@ -1,0 +1,22 @@
+//go:build verif
+
+package driver
+
+import (
+	"context"
+
+	"github.com/NethermindEth/juno/consensus/types"
+)
+
+// VerifInjectTimeout hands a timeout to the driver's loop exactly as an expired timer would
+// (same channel). It only exists in builds with the `verif` tag: the external conformance harness
+// configures hour-long timeouts and uses this to decide deterministically when one fires.
+// It returns false if ctx is cancelled before the loop accepted the timeout.
+func (d *Driver[V, H, A]) VerifInjectTimeout(ctx context.Context, tm types.Timeout) bool {
+	select {
+	case <-ctx.Done():
+		return false
+	case d.timeoutsCh <- tm:
+		return true
+	}
+}
